@@ -243,3 +243,56 @@ Section Engine.
       stt y (sid s) = stt z (sid s) /\
       (stt y (sid s) = Succeeded -> forall p, In p (out s) -> fs y p = fs z p).
 End Engine.
+
+(* ------------------------------------------------------------------------------------------ *)
+(* Correspondence checker (harness/c01_engine.py): a concrete deterministic program and the    *)
+(* comparison of per-build logs and step states with what the real system did                  *)
+(* ------------------------------------------------------------------------------------------ *)
+Definition mix_mod : N := 2305843009213693951.     (* 2^61 - 1 *)
+Definition mix_run (id : N) (ins envs : list (option N)) (p : N) : N :=
+  fold_left (fun a o => match o with
+                        | Some c => (a * 1000003 + c + 1) mod mix_mod
+                        | None => (a * 1000003) mod mix_mod end)
+            (ins ++ [Some 424242] ++ envs) ((id * 7919 + p + 17) mod mix_mod).
+
+(* model log versus observed log: the same set of steps executed their command; every step the
+   model hash-checks and skips was skipped by the implementation too (the implementation may
+   re-check more steps: a step is re-checked at every restart once one of its variables differs
+   from the value recorded at declaration time, see finding F6) *)
+Definition log_eqb (model observed : list (N * bool)) : bool :=
+  let ran l := map fst (filter snd l) in
+  let skipped l := map fst (filter (fun x => negb (snd x)) l) in
+  Nat.eqb (length (ran model)) (length (ran observed)) &&
+  forallb (fun x => memN x (ran observed)) (ran model) &&
+  forallb (fun x => memN x (ran model)) (ran observed) &&
+  forallb (fun x => memN x (skipped observed)) (skipped model).
+
+Definition src_of (l : list (N * N)) : N -> option N :=
+  fun p => match find (fun x => fst x =? p) l with Some x => Some (snd x) | None => None end.
+
+(* one phase of the restart flavour = (sources, environment, expected log of the build:
+   (step, ran? else skipped), expected final states: (step, succeeded?)) *)
+Definition phase_spec := (list (N * N) * list (N * N) * list (N * bool) * list (N * bool))%type.
+
+Fixpoint check_hist (proj : project) (y : sys) (phases : list phase_spec) : bool :=
+  match phases with
+  | [] => true
+  | (src, env, elog, est) :: rest =>
+    let y1 := resync proj y (src_of src, src_of env) in
+    let y2 := build mix_run proj y1 in
+    log_eqb (build_log mix_run proj proj y1) elog &&
+    forallb (fun x => Bool.eqb (is_succ (stt y2 (fst x))) (snd x)) est &&
+    check_hist proj y2 rest
+  end.
+
+(* diagnostics: what the model did *)
+Fixpoint trace_hist (proj : project) (y : sys) (phases : list phase_spec)
+  : list (list (N * bool) * list (N * bool)) :=
+  match phases with
+  | [] => []
+  | (src, env, _, est) :: rest =>
+    let y1 := resync proj y (src_of src, src_of env) in
+    let y2 := build mix_run proj y1 in
+    (build_log mix_run proj proj y1, map (fun x => (fst x, is_succ (stt y2 (fst x)))) est)
+      :: trace_hist proj y2 rest
+  end.
